@@ -334,6 +334,20 @@ def impl_scanner(arg):
         ln = getattr(e, 'lineno', None)
         return [1, opt(ln if isinstance(ln, int) else None), public_context(e), call_impl_noerr(format_error, e, 'ERROR: ')]
 
+def impl_lineless(arg):
+    """Scanner.required on a fresh scanner without line numbers (the name-format scanner)"""
+    from pybtex.bibtex.names import NameFormatParser
+    from pybtex.scanner import Literal
+    from pybtex.exceptions import PybtexError
+    from pybtex.errors import format_error
+    sc = NameFormatParser(S(arg[0]), filename=fn_value(arg[2]))
+    try:
+        tok = sc.required([Literal(S(arg[1]))])
+        return [0, norm(tok.value)]
+    except PybtexError as e:
+        ln = getattr(e, 'lineno', None)
+        return [1, opt(ln if isinstance(ln, int) else None), public_context(e), call_impl_noerr(format_error, e, 'ERROR: ')]
+
 def canon_context_value(c):
     """source lines exactly; of the marker line only its column (the glyphs are wording)"""
     if c[0] != 0 or c[1] == [] or c[1] == [[]]:
@@ -377,6 +391,17 @@ def impl_construct(arg):
         p = _mk_scanner(arg[2], LowLevelParser)
         p.command_start = unopt(arg[3])
         e = TokenRequired(S(arg[1]), p)
+    elif tag == 6:
+        from pybtex.bibtex.names import NameFormatParser
+        p = NameFormatParser(S(arg[2]), filename=fn_value(arg[3]))
+        p.pos = arg[4]
+        e = TokenRequired(S(arg[1]), p)
+    elif tag == 7:
+        from pybtex.bibtex.names import NameFormatParser
+        p = NameFormatParser('', filename=fn_value(arg[3]))
+        et = S(arg[1])
+        cls = PybtexSyntaxError if et == 'syntax error' else (_CUSTOM.get(et) or _CUSTOM.setdefault(et, type('CustomSyntaxError', (PybtexSyntaxError,), {'error_type': et})))
+        e = cls(S(arg[2]), p)
     else:
         from pybtex.auxfile import AuxDataError, AuxDataContext
         c = AuxDataContext(fn_value(arg[2][0]))
@@ -584,6 +609,23 @@ def _t_name(tok, d):
 def _t_name_format(tok, d):
     from pybtex.bibtex.names import format_name
     return lambda: format_name('Donald E. Knuth', '{ff}%s{' % tok.replace('{', '').replace('}', ''))
+def _nb(tok):
+    return tok.replace('{', '').replace('}', '')
+def _fmt_direct(fmt):
+    from pybtex.bibtex.names import format_name
+    return lambda: format_name('Donald E. Knuth', fmt)
+def _t_fmt_stray(tok, d):          # TokenRequired of the line-less name-format scanner
+    return _fmt_direct('{ff_%s}{ll}' % _nb(tok))
+def _t_fmt_letters(tok, d):
+    return _fmt_direct('{ff}{qq%s}' % _nb(tok))
+def _t_fmt_closing(tok, d):
+    return _fmt_direct('{ff}%s}' % _nb(tok))
+def _t_fmt_inner(tok, d):
+    return _fmt_direct('{ff{%s' % _nb(tok))
+def _t_bst_fmt_stray(tok, d):
+    return _bst('FUNCTION {f} { "Donald E. Knuth" #1 "{ff_%s}{ll}" format.name$ write$ }\nEXECUTE {f}\n' % _q(_nb(tok)))
+def _t_bst_fmt_letters(tok, d):
+    return _bst('FUNCTION {f} { "w" warning$ "Donald E. Knuth" #1 "{ff}{qq%s}" format.name$ write$ }\nEXECUTE {f}\n' % _q(_nb(tok)))
 def _t_plugin(tok, d):
     from pybtex.plugin import find_plugin
     return lambda: find_plugin('pybtex.backends', 'p' + tok)
@@ -643,10 +685,16 @@ TARGETS = [
     ('plugin suffix', _t_plugin_suffix, lambda t: None),
     ('template: missing field', _t_template_field, lambda t: ['f' + t, 'k' + t]),
     ('style: missing database entry', _t_style_missing, lambda t: ['c' + t, 'd' + t]),
+    ('name format: stray character at brace level 1 (TokenRequired of a scanner without line numbers)', _t_fmt_stray, lambda t: None),
+    ('name format: illegal brace-level-1 letters', _t_fmt_letters, lambda t: ['{ff}{qq%s}' % _nb(t)]),
+    ('name format: unbalanced closing brace', _t_fmt_closing, lambda t: ['{ff}%s}' % _nb(t)]),
+    ('name format: unbalanced, end of string inside a group', _t_fmt_inner, lambda t: ['{ff{%s' % _nb(t)]),
+    ('.bst: format.name$ with a stray character in the format string', _t_bst_fmt_stray, lambda t: None),
+    ('.bst: format.name$ with illegal letters in the format string', _t_bst_fmt_letters, lambda t: ['{ff}{qq%s}' % _q(_nb(t))]),
 ]
 
 TARGET_FORBID = {0: ',' + _LBS, 1: _LBS, 2: _LBS, 3: _WS + ',', 4: _NAMEONLY, 5: _NAMEONLY, 6: _LBS, 7: _LBS + ',', 8: _WS + ',',
-                 9: _LBS, 10: _LBS, 11: _LBS, 12: _LBS, 13: _LBS, 14: _WS, 15: _LBS, 17: _LBS}
+                 9: _LBS, 10: _LBS, 11: _LBS, 12: _LBS, 13: _LBS, 14: _WS, 15: _LBS, 17: _LBS, 27: _LBS, 28: _LBS}
 
 def impl_targeted(arg):
     k, tok = arg[0], _plantable(arg[0], S(arg[1]))
@@ -693,6 +741,68 @@ def oracle_targeted(arg, out):
             return 'the user-controlled text %r does not appear verbatim in the rendered problems %r' % (forms[0], texts)
     return None
 
+# ---- the pybtex command line on a generated .bst whose format.name$ gets the given format string
+def impl_cli_name_format(arg):
+    from pybtex.exceptions import PybtexError
+    from pybtex.bibtex.names import format_name
+    fmt = S(arg).replace('"', '')
+    clear_memos()
+    try:
+        format_name('Donald E. Knuth', fmt)
+        direct = [0]
+    except PybtexError as e:
+        try:
+            direct = [1, norm(str(e))]
+        except Exception:
+            direct = [1, []]
+    except Exception:
+        direct = [2]
+    d = tempfile.mkdtemp(prefix='c16cli')
+    cwd = os.getcwd()
+    argv = sys.argv
+    runs = []
+    try:
+        _tmpfile(d, 'x.aux', '\\citation{k}\n\\bibdata{x}\n\\bibstyle{x}\n')
+        _tmpfile(d, 'x.bib', '@misc{k, author = {Donald E. Knuth}}\n')
+        _tmpfile(d, 'x.bst', 'ENTRY {author}{}{}\nFUNCTION {f} { author #1 "%s" format.name$ write$ newline$ }\nREAD\nITERATE {f}\n' % fmt)
+        os.chdir(d)
+        for extra in ([], ['--strict']):
+            clear_memos()
+            E, buf = reset_state(1, 0)
+            sys.argv = ['pybtex'] + extra + ['x.aux']
+            try:
+                from pybtex.__main__ import main
+                main()
+                st = [2]
+            except SystemExit as ex:
+                st = [0, 0 if ex.code is None else ex.code] if (ex.code is None or isinstance(ex.code, int)) else [2]
+            except Exception:
+                st = [2]
+            runs.append([st, norm(buf.getvalue())])
+    finally:
+        sys.argv = argv
+        os.chdir(cwd)
+        shutil.rmtree(d, ignore_errors=True)
+        reset_state(1, 0)
+    return [direct] + runs
+
+def oracle_cli_name_format(arg, out):
+    direct = out[0]
+    for k, name in ((1, 'pybtex x.aux'), (2, 'pybtex --strict x.aux')):
+        st, text = out[k][0], S(out[k][1])
+        if direct[0] == 2:
+            continue
+        if st[0] != 0:
+            return '%s: the command line dies with a foreign exception (traceback) instead of printing an error' % name
+        if direct[0] == 1:
+            if st[1] == 0:
+                return '%s: format.name$ got a bad format string but the exit status is 0' % name
+            if 'error' not in text.lower() or S(direct[1]) not in text:
+                return '%s: the error %r is not printed: %r' % (name, S(direct[1]), text)
+        elif st[1] != 0:
+            return '%s: nothing is wrong with the format string but the exit status is %r (%r)' % (name, st[1], text)
+    return None
+
 def oracle_real(out):
     if out == [9]:
         return None
@@ -730,10 +840,12 @@ FUNCS = {
     7: ('Scanner.required error + format_error', impl_scanner, ('T', 'S', 'S', 'X')),
     8: ('str.splitlines', impl_splitlines, ('T', 'B', 'S')),
     9: ("'{0}'.format(int)", impl_int, 'I'),
+    18: ('Scanner.required on a scanner without line numbers (NameFormatParser) + format_error', impl_lineless, ('T', 'S', 'S', 'X')),
     13: ('constructors of the error classes, observed through str/get_context/format_error/lineno/get_filename', impl_construct, 'X'),
     10: ('parse_string(.bib) in strict / non-strict / capture mode: renderings of every problem', impl_real_bib, 'S'),
     11: ('.bst parsed and run in strict / non-strict / capture mode: renderings of every problem', impl_real_bst, 'S'),
     12: ('.aux parsed in strict / non-strict / capture mode: renderings of every problem', impl_real_aux, 'S'),
+    19: ('pybtex command line on a generated .bst: format.name$ with the given format string', impl_cli_name_format, 'S'),
     17: ('a problem whose message embeds a given piece of user-controlled text, in the three modes', impl_targeted, ('T', 'N', 'S')),
     14: ('Parser().parse_file(bytes path of a .bib) in the three modes', impl_real_bib_bytes, ('T', 'X', 'S')),
     15: ('bst.parse_file(bytes path) in the three modes', impl_real_bst_bytes, ('T', 'X', 'S')),
@@ -747,7 +859,7 @@ def canon(fn, out):
     """compare only what the property talks about: whether an error renders, which problems went
     where and in which order, the mode cells, the exit status -- never the wording of a message
     (the oracle checks, within the implementation, that renderings contain the message)"""
-    if fn in (10, 11, 12, 14, 15, 16, 17):
+    if fn in (10, 11, 12, 14, 15, 16, 17, 19):
         return []        # not modelled: the parsers belong to C10/C15/C20; oracle only
     try:
         if fn in (1, 2, 3):
@@ -758,7 +870,7 @@ def canon(fn, out):
             return [[_noout(x[0])] + x[1:] for x in out]
         if fn == 6:
             return [_noout(out[0]), out[1]]
-        if fn == 7:
+        if fn in (7, 18):
             if out[0] == 0:
                 return out
             return [1, out[1], canon_context_value(out[2]), out[3][:1]]
@@ -796,6 +908,8 @@ def wellformed(rec):
         return F27_OPEN   # an int as file name is what builtins.py:214 passes (finding F27)
     if ctx[0] == 1:
         text, ln, pos = S(ctx[1]), unopt(ctx[2]), ctx[3]
+        if ln is None:
+            return True      # a scanner without line numbers (NameFormatParser): no context line, must render
         # a TokenRequired is raised in front of a character, after whitespace was skipped
         return ln is not None and 0 <= pos < len(text) and ln == scanner_lineno(text, pos) \
             and not (text[pos - 1:pos] == '\r' and text[pos:pos + 1] == '\n')
@@ -973,6 +1087,8 @@ def oracle_cmdline(arg, out):
     return None
 
 def oracle(fn, arg, out):
+    if fn == 19:
+        return oracle_cli_name_format(arg, out)
     if fn == 17:
         return oracle_targeted(arg, out)
     if fn in (10, 11, 12, 14, 15, 16):
@@ -1032,17 +1148,17 @@ def oracle(fn, arg, out):
         text = S(out[2][1])
         if S(out[0][1]) not in text:
             return 'the rendering lacks str(error)'
-        given = {0: [1], 1: [2], 3: [1], 4: [1], 5: [1]}.get(arg[0], [])
+        given = {0: [1], 1: [2], 3: [1], 4: [1], 5: [1], 6: [1], 7: [2]}.get(arg[0], [])
         for k in given:
             if S(arg[k]) not in S(out[0][1]):
                 return 'the text %r given to the constructor does not appear verbatim in str(error) = %r' % (S(arg[k]), S(out[0][1]))
-        fnw = arg[2] if arg[0] == 0 else (arg[2][0] if arg[0] == 5 else arg[{1: 3, 2: 1, 3: 2, 4: 2}[arg[0]]][1])
+        fnw = arg[2] if arg[0] == 0 else (arg[2][0] if arg[0] == 5 else (arg[3] if arg[0] in (6, 7) else arg[{1: 3, 2: 1, 3: 2, 4: 2}[arg[0]]][1]))
         if fnw[:1] == [0] and fnw[1] and S(fnw[1]) + ': ' not in text:
             return 'the file name %r does not appear verbatim in the rendering %r' % (S(fnw[1]), text)
         if out[1][1] and out[1][1][0] and not subseq_in_order(S(out[1][1][0]).splitlines(), text, ''):
             return 'the rendering lacks the source context'
         return None
-    if fn == 7:
+    if fn in (7, 18):
         if out[0] == 0:
             return None
         r = out[3]
@@ -1144,6 +1260,17 @@ def gen_real(quick, rng):
     for i in range(NR // 2):
         tok = ''.join(rng.choice(HOSTILE + ['a', 'B', '0', ' ', 'é', '.', '-']) for _ in range(rng.randint(1, 4)))
         yield ('targeted_hostile', 17, [rng.randrange(len(TARGETS)), tok])
+    # ---- name-format strings: every way the (line-less) name-format scanner fails, through format_name
+    #      (targets above), a .bst run and the command line
+    FMTS = ['{ff_}{ll}', '{ff', '{ff}}', '}', '{', '{ff xx}', '{abc}', '{ff}{ff1}x', '{f{', '{_}', '{ll}{, jj_}', '{ff}{qq}', '{ff{a}{b}_}',
+            '{ff~}{vv~}{ll}{, jj}', '{f.~}{ll}', 'plain text', '', '{ff}{ff}', '{1f}', '{f1}', '{ff}{}', '{é}', '{ff%s}', '{ll{0}}', '{{x}_}']
+    for f_ in FMTS:
+        yield ('cli_name_format', 19, f_)
+        yield ('real_bst', 11, 'FUNCTION {f} { "w" warning$ "Donald E. Knuth" #1 "%s" format.name$ write$ }\nEXECUTE {f}\n' % f_)
+    for i in range(20 if quick else 300):
+        f_ = ''.join(rng.choice(['{', '}', 'f', 'l', 'v', 'j', 'ff', 'll', '_', ',', ' ', '~', '.', '1', 'a', 'é', '{ff}', '{ll}']) for _ in range(rng.randint(1, 7)))
+        yield ('cli_name_format', 19, f_)
+        yield ('real_bst', 11, 'FUNCTION {f} { "Donald E. Knuth" #1 "%s" format.name$ write$ }\nEXECUTE {f}\n' % f_)
     # ---- hostile text inside the corrupted real inputs as well
     for i in range(NR // 2):
         t = BIB + tail
@@ -1220,8 +1347,12 @@ def gen(tier, rng):
                         yield ('exh_bib_ctx', 1, [rec, 'ERROR: '])
     # ---- exhaustive: rendering of the other classes over the attribute tables
     eid = 0
-    for msg in MSGS:
-        for fn in FNAMES + [[1]]:
+    # (quick: a sample of the hostile messages and file names here; all of them are in the constructor
+    #  stream, the random records and the targeted problems)
+    msgs_x = MSGS if not quick else MSGS[:8] + ['{', '{0}', 'Baz{0}', '%s', 'é{0}%s\\']
+    fns_x = (FNAMES if not quick else FNAMES[:3] + FNAMES[5:7] + FNAMES[10:]) + [[1]]
+    for msg in msgs_x:
+        for fn in fns_x:
             for pre in ('ERROR: ', 'WARNING: ', ''):
                 eid += 1
                 yield ('exh_render', 1, [[eid, msg, fn, [0], [0]], pre])
@@ -1269,6 +1400,9 @@ def gen(tier, rng):
         for t in itertools.product(' \n\rxy\x0c', repeat=n):
             text = ''.join(t)
             yield ('exh_scanner', 7, [text, 'x', [0, 'f.bst']])
+            if n <= 4:
+                yield ('exh_lineless', 18, [text, 'x', [[], [0, 'f'], [2, list(b'\xe9')]][n % 3]])
+                yield ('exh_lineless', 18, [text, '', []])
             if n <= 4:
                 yield ('exh_scanner', 7, [text, 'xy', []])
     # ---- random
@@ -1331,6 +1465,10 @@ def gen(tier, rng):
     for msg in MSGS:
         for fn_ in FNAMES + [[1]]:
             yield ('exh_construct', 13, [0, msg, fn_])
+            if fn_ != [1]:
+                yield ('exh_construct', 13, [7, ETYPES[len(msg) % len(ETYPES)], msg, fn_])
+                for pos in (0, 3):
+                    yield ('exh_construct', 13, [6, msg, 'a\n{ff_}\r\nb', fn_, pos])
         for f_ in fns:
             for ln in LINENOS:
                 for line in ([], [''], ['\\bibdata{x}'], ['\\citation{Baz{0}%s}']):
@@ -1364,11 +1502,11 @@ def nontrivial(fn, arg, out):
         return len(out[2]) >= 2
     if fn in (5, 6):
         return len(arg[-1][0]) >= 1
-    if fn == 7:
+    if fn in (7, 18):
         return out[0] == 1
     if fn == 8:
         return len(out) >= 2
-    if fn in (10, 11, 12, 14, 15, 16, 17):
+    if fn in (10, 11, 12, 14, 15, 16, 17, 19):
         return True
     return True
 
@@ -1388,13 +1526,15 @@ def describe(fn, arg):
     if fn in (5, 6):
         c = arg[-1]
         return {'args': arg[:-1], 'reports': [describe_err(e) for e in c[0]], 'ending': ['return', 'raise pybtex error', 'raise foreign exception'][c[1][0]]}
-    if fn == 7:
-        return {'text': S(arg[0]), 'required literal': S(arg[1]), 'filename': arg[2]}
+    if fn in (7, 18):
+        return {'text': S(arg[0]), 'required literal': S(arg[1]), 'filename': arg[2], 'scanner': 'Scanner' if fn == 7 else 'NameFormatParser (no line numbers)'}
     if fn == 8:
         return {'keepends': arg[0], 'text': S(arg[1])}
     if fn == 13:
-        return {'constructor': ['PybtexError(message, filename)', 'PybtexSyntaxError(message, parser)', 'PrematureEOF(parser)', 'TokenRequired(description, Scanner)', 'TokenRequired(description, LowLevelParser)', 'AuxDataError(message, context)'][arg[0]],
+        return {'constructor': ['PybtexError(message, filename)', 'PybtexSyntaxError(message, parser)', 'PrematureEOF(parser)', 'TokenRequired(description, Scanner)', 'TokenRequired(description, LowLevelParser)', 'AuxDataError(message, context)', 'TokenRequired(description, line-less scanner)', 'PybtexSyntaxError(message, line-less scanner)'][arg[0]],
                 'args': [S(x) if isinstance(x, list) and x and all(isinstance(c, int) for c in x) else x for x in arg[1:]]}
+    if fn == 19:
+        return {'format.name$ format string': S(arg)}
     if fn == 17:
         return {'problem': TARGETS[arg[0]][0] if arg[0] < len(TARGETS) else arg[0], 'planted text': S(arg[1])}
     if fn in (14, 15, 16):
